@@ -70,7 +70,9 @@
 //!   fastest, policies slowest, so a prefix covers all kinds.
 //!
 //! Validity: the corpus is a *wire-format* corpus. NO transaction in it is claimed to
-//! pass `check`/`check_without_signatures`: predicate owners are patterns instead of
+//! pass `check`/`check_without_signatures` (measured by C01, height 0,
+//! `ConsensusParameters::standard()`: of the 5,860 star transactions only 48 Mint values
+//! pass `check_without_signatures`; no chargeable one does): predicate owners are patterns instead of
 //! predicate roots, witness indices are not matched to the witness list, Create has no
 //! bytecode witness / ContractCreated output, upload/blob bodies do not match a
 //! witness, asset balances do not add up. What IS guaranteed: every transaction is
